@@ -73,6 +73,9 @@ func entryTermFor(key string) string {
 		}
 	}
 	parts := strings.SplitN(key, ".", 2)
+	if parts[0] == "ghost" {
+		return "G_" + parts[1]
+	}
 	return fmt.Sprintf("H_%s_%s", parts[0], parts[1])
 }
 
